@@ -33,6 +33,7 @@ namespace vf {
 // ---- node allocator ledger
 struct AllocLedger {
     std::map<const void*, std::pair<int, size_t>> live;   // address -> (id, bytes)
+    std::map<const void*, int> arena_of;                  // address -> arena of the allocator instance that handed the block out
     int next_id = 0;
     long errors = 0, allocs = 0, frees = 0;
     Out* out = nullptr;
@@ -48,13 +49,18 @@ template <class T>
 struct CAlloc {
     using value_type = T;
     template <class U> struct rebind { using other = CAlloc<U>; };
+    // The allocator is STATEFUL: every container object starts with an allocator instance of its own arena, instances of different arenas compare unequal, and a
+    // block must go back through an instance of the arena it came from (round-6 seeded change: operator= adopting the source's allocator before releasing its own nodes).
+    int arena = 0;
     CAlloc() = default;
-    template <class U> CAlloc(const CAlloc<U>&) {}
+    explicit CAlloc(int a) : arena(a) {}
+    template <class U> CAlloc(const CAlloc<U>& o) : arena(o.arena) {}
     T* allocate(size_t n) {
         void* p = std::malloc(n * sizeof(T));
         auto& a = aledger();
         int id = ++a.next_id; ++a.allocs;
         if (!a.live.emplace(p, std::make_pair(id, n * sizeof(T))).second) ++a.errors;
+        a.arena_of[p] = arena;
         if (a.out) { Ev e("alloc"); e.num("id", id).str("kind", !is_node<T>::value ? "other" : is_leaf_node<T>::value ? "leaf" : "inner").num("bytes", (long long)(n * sizeof(T))); e.emit(*a.out); }
         return static_cast<T*>(p);
     }
@@ -67,12 +73,14 @@ struct CAlloc {
             return;
         }
         if (a.out) { Ev e("free"); e.num("id", it->second.first); e.emit(*a.out); }
+        if (a.arena_of[p] != arena) ++a.errors;          // released through an allocator of another arena
+        a.arena_of.erase(p);
         std::memset(static_cast<void*>(p), 0xDD, it->second.second);     // released storage is poisoned
         a.live.erase(it);
         std::free(p);
     }
-    template <class U> bool operator==(const CAlloc<U>&) const { return true; }
-    template <class U> bool operator!=(const CAlloc<U>&) const { return false; }
+    template <class U> bool operator==(const CAlloc<U>& o) const { return arena == o.arena; }
+    template <class U> bool operator!=(const CAlloc<U>& o) const { return arena != o.arena; }
 };
 
 struct KLess { template <class K> bool operator()(const K& a, const K& b) const { return a < b; } };
@@ -287,7 +295,7 @@ struct Runner {
         aledger().out = shapes ? &out : nullptr;
         { Ev e("reset"); e.boolean("multi", Multi).boolean("map", IsMap).boolean("desc", DESC).num("ls", LS).num("is", IS).boolean("bin", BIN).boolean("tracked", TRK).num("flavour", FL); e.emit(out); }
         long long live0 = (long long)ledger().live.size();
-        c[1] = new C(); c[2] = new C();
+        c[1] = new C(typename C::allocator_type(1)); c[2] = new C(typename C::allocator_type(2));
         std::string op;
         while (is >> op) {
             Ev e("op"); e.str("op", op);
@@ -337,7 +345,7 @@ struct Runner {
             } else if (op == "Y") {
                 // copy construction, alternating with construction from the range [begin, end) of the other container (same contents, same order)
                 ci = 2; bool byrange = (++ncopies % 2) == 0;
-                C* nc = byrange ? new C(c[1]->begin(), c[1]->end()) : new C(*c[1]); delete c[2]; c[2] = nc; e.num("c", 2);
+                C* nc = byrange ? new C(c[1]->begin(), c[1]->end(), typename C::allocator_type(3)) : new C(*c[1]); delete c[2]; c[2] = nc; e.num("c", 2);
                 if (byrange) e.s.replace(e.s.find("\"op\":\"Y\""), 8, "\"op\":\"YR\"");       // a range construction may order equivalent keys differently from the source
             } else if (op == "A") {
                 long long n; is >> n; e.num("n", n);
